@@ -1,6 +1,6 @@
 // REPLAY for property C06, harness k_arm_block_done_and_adler (unit K-arms, engine kani)
 // Failed obligations:
-//   OBL:arms.end_of_stream_returns_whole_unread_bytes_to_input [C06]  at miniz_oxide/src/inflate/core.rs:3832:17 in function inflate::core::verif_inflate_core::k_arm_block_done_and_adler
+//   OBL:arms.end_of_stream_returns_whole_unread_bytes_to_input [C06]  at miniz_oxide/src/inflate/core.rs:3833:17 in function inflate::core::verif_inflate_core::k_arm_block_done_and_adler
 // no-failing-input-found: the verifier reported the failed obligation without a concrete model.
 // Verifier output (tail):
 //   	 - Description: "dereference failure: pointer outside object bounds"
@@ -55,10 +55,10 @@
 //   SUMMARY:
 //    ** 1 of 519 failed (9 unreachable)
 //   Failed Checks: "OBL:arms.end_of_stream_returns_whole_unread_bytes_to_input [C06]"
-//    File: "miniz_oxide/src/inflate/core.rs", line 3832, in inflate::core::verif_inflate_core::k_arm_block_done_and_adler
+//    File: "miniz_oxide/src/inflate/core.rs", line 3833, in inflate::core::verif_inflate_core::k_arm_block_done_and_adler
 //   
 //   VERIFICATION:- FAILED
-//   Verification Time: 32.326084s
+//   Verification Time: 45.006405s
 //   
 //   Manual Harness Summary:
 //   Verification failed for - inflate::core::verif_inflate_core::k_arm_block_done_and_adler
